@@ -3,7 +3,7 @@
 # Confirms a seeded change in its scratch worktree, runs the property's check against it in the private
 # mutation environment, and stores everything under /verif/seeded/<Cxx>-<X>/.
 id=$1; X=$2; demo=$3; crate=$4; shift 4
-W=/tmp/mut/$id; D=/verif/seeded/$id-$X
+W=/tmp/mutw/$id; D=/verif/seeded/$id-$X
 mkdir -p $D
 cp $W/out/$X.diff $D/patch.diff; cp $W/out/demo_$X.rs $D/demo.rs
 mkdir -p $W/$(dirname $demo)
